@@ -1,7 +1,200 @@
 // Kani harnesses for minijinja/src/vm/loop_object.rs (included under cfg(kani)).
 #![allow(unused_imports)]
 use super::*;
+use crate::value::verif_kani::{counting_iter, empty_iter};
+use crate::value::ValueRepr;
 use crate::verif_common::*;
+
+fn is_int(v: &Value, want: u64) -> bool {
+    match v.0 {
+        ValueRepr::U64(x) => x == want,
+        ValueRepr::I64(x) => x >= 0 && x as u64 == want,
+        _ => false,
+    }
+}
+fn is_bool(v: &Value, want: bool) -> bool {
+    matches!(v.0, ValueRepr::Bool(b) if b == want)
+}
+fn attr(l: &Arc<Loop>, key: &str) -> Value {
+    l.get_value_by_str(key).unwrap()
+}
+
+macro_rules! adjacent_harness {
+    ($name:ident, $n:expr) => {
+        #[kani::proof]
+        #[kani::unwind(6)]
+        fn $name() {
+            let n: usize = $n;
+            let mut w = AdjacentLoopItemIterWrapper::new(counting_iter(n));
+            let mut step: usize = 0;
+            while step <= n {
+                // an optional look-ahead before advancing must not disturb the iteration
+                let peek: bool = kani::any();
+                if peek {
+                    let nx = w.next_item();
+                    if step < n {
+                        assert!(is_int(&nx, step as u64));
+                    } else {
+                        assert!(nx.is_undefined());
+                    }
+                    core::mem::forget(nx);
+                }
+                let item = w.next();
+                if step < n {
+                    assert!(matches!(item, Some(ref v) if is_int(v, step as u64)));
+                    let prev = w.prev_item();
+                    if step == 0 {
+                        assert!(prev.is_undefined());
+                    } else {
+                        assert!(is_int(&prev, step as u64 - 1));
+                    }
+                    core::mem::forget(prev);
+                } else {
+                    assert!(item.is_none());
+                }
+                core::mem::forget(item);
+                step += 1;
+            }
+            kani::cover!(step == n + 1);
+            core::mem::forget(w);
+        }
+    };
+}
+
+// @verif-block props=C03 tier=quick cap=400 group=core doc=previtem/nextitem_bookkeeping_(AdjacentLoopItemIterWrapper)_over_exactly_N_items_with_a_symbolic_interleaving_of_look-aheads:_next()_yields_the_items_in_order,_previtem/nextitem_are_the_neighbours_(undefined_at_the_ends),_look-ahead_never_changes_what_is_iterated
+adjacent_harness!(c03_adjacent_items_n0, 0);
+adjacent_harness!(c03_adjacent_items_n1, 1);
+adjacent_harness!(c03_adjacent_items_n2, 2);
+adjacent_harness!(c03_adjacent_items_n3, 3); // tier=thorough cap=1800
+// @verif-end
+
+macro_rules! loopstate_harness {
+    ($name:ident, $n:expr) => {
+        #[kani::proof]
+        #[kani::unwind(6)]
+        fn $name() {
+            let n: usize = $n;
+            let mut st = LoopState::new(counting_iter(n), 0, true, None, None);
+            // the length is taken from an exact size hint; nothing is consumed by construction
+            assert!(st.object.len == Some(n));
+            assert!(st.object.idx.load(Ordering::Relaxed) == usize::MAX);
+            let mut step: usize = 0;
+            while step <= n {
+                let item = st.next();
+                // every advance moves the position by exactly one, starting at 0
+                assert!(st.object.idx.load(Ordering::Relaxed) == step);
+                if step < n {
+                    assert!(matches!(item, Some(ref v) if is_int(v, step as u64)));
+                } else {
+                    assert!(item.is_none());
+                    // the loop body never ran exactly when the sequence was empty
+                    assert!(st.did_not_iterate() == (n == 0));
+                }
+                core::mem::forget(item);
+                step += 1;
+            }
+            kani::cover!(step == n + 1);
+            core::mem::forget(st);
+        }
+    };
+}
+
+// @verif-block props=C03 tier=quick cap=400 group=core doc=LoopState::new/next/did_not_iterate_over_exactly_N_items:_length_==_N,_the_k-th_advance_sets_the_position_to_k-1_and_yields_item_k-1,_"did_not_iterate"_holds_after_exhaustion_exactly_for_N==0_(together_with_c01_loop_attrs_any_position,_which_proves_the_attribute_arithmetic_for_EVERY_position_and_length,_this_gives_"loop.*_describes_the_sequence_actually_iterated")
+loopstate_harness!(c03_loopstate_n0, 0);
+loopstate_harness!(c03_loopstate_n1, 1); // cap=900
+// @verif-end
+
+// @verif props=C01,C03 tier=quick cap=300 group=core fns=Loop::get_value_by_str
+/// Loop attributes never panic and stay consistent for ANY internal position idx (usize) and ANY known/unknown
+/// length: index == index0 + 1 (no overflow), revindex/revindex0 saturate at 0, never-iterated loops report undefined.
+#[kani::proof]
+#[kani::unwind(12)]
+fn c01_loop_attrs_any_position() {
+    let idx: usize = kani::any();
+    let len: Option<usize> = kani::any();
+    let depth: usize = kani::any();
+    kani::assume(depth < usize::MAX);
+    let l = Arc::new(Loop {
+        idx: AtomicUsize::new(idx),
+        len,
+        depth,
+        recurse_jump_target: None,
+        last_changed_value: Mutex::default(),
+        iter: Mutex::new(AdjacentLoopItemIterWrapper::new(empty_iter())),
+    });
+    let (i0, i1, r1, r0, last, d) =
+        (attr(&l, "index0"), attr(&l, "index"), attr(&l, "revindex"), attr(&l, "revindex0"), attr(&l, "last"), attr(&l, "depth"));
+    if idx == usize::MAX {
+        assert!(i0.is_undefined() && i1.is_undefined() && r1.is_undefined());
+    } else {
+        assert!(is_int(&i0, idx as u64));
+        assert!(is_int(&i1, idx as u64 + 1));
+        match len {
+            Some(n) => {
+                assert!(is_int(&r1, (n as u64).saturating_sub(idx as u64)));
+                assert!(is_int(&r0, (n as u64).saturating_sub(idx as u64).saturating_sub(1)));
+            }
+            None => assert!(r1.is_undefined() && r0.is_undefined()),
+        }
+        assert!(is_int(&d, depth as u64 + 1));
+    }
+    let (first, lastv) = (attr(&l, "first"), attr(&l, "last"));
+    if idx != usize::MAX {
+        assert!(is_bool(&first, idx == 0));
+        assert!(is_bool(&lastv, match len {
+            Some(n) => n == 0 || idx as u64 == (n as u64).wrapping_sub(1),
+            None => false,
+        }));
+        assert!(l.get_value_by_str("nosuchattr").is_none());
+    }
+    core::mem::forget((first, lastv));
+    kani::cover!(idx == usize::MAX);
+    kani::cover!(len == Some(0) && idx == 5);
+    core::mem::forget((i0, i1, r1, r0, last, d, l));
+}
+
+macro_rules! cycle_harness {
+    ($name:ident, $nargs:expr) => {
+        #[kani::proof]
+        #[kani::unwind(12)]
+        #[kani::stub(std::hash::RandomState::new, crate::verif_common::random_state_stub)]
+        fn $name() {
+            let idx: usize = kani::any();
+            let l = Arc::new(Loop {
+                idx: AtomicUsize::new(idx),
+                len: None,
+                depth: 0,
+                recurse_jump_target: None,
+                last_changed_value: Mutex::default(),
+                iter: Mutex::new(AdjacentLoopItemIterWrapper::new(empty_iter())),
+            });
+            let env: &'static crate::Environment<'static> = Box::leak(Box::new(crate::Environment::empty()));
+            let mut state = State::new_for_env(env);
+            let all = [Value::from(10i64), Value::from(11i64), Value::from(12i64)];
+            let args = &all[..$nargs];
+            let r = Object::call_method(&l, &mut state, "cycle", args);
+            match r {
+                Ok(ref v) => {
+                    if $nargs == 0 {
+                        assert!(v.is_undefined());
+                    } else {
+                        assert!(is_int(v, 10 + (idx % ($nargs as usize).max(1)) as u64));
+                    }
+                }
+                Err(_) => assert!(false),
+            }
+            kani::cover!(idx > 100);
+            core::mem::forget((r, all, state, l));
+        }
+    };
+}
+
+// @verif-block props=C01,C03 tier=quick cap=300 group=core doc=loop.cycle(args)_with_the_listed_number_of_arguments_at_ANY_loop_position:_never_panics_(no_remainder_by_zero),_returns_args[idx_mod_n]_or_undefined_for_no_arguments
+cycle_harness!(c01_loop_cycle_0args, 0);
+cycle_harness!(c01_loop_cycle_1arg, 1);
+cycle_harness!(c01_loop_cycle_2args, 2); // tier=thorough cap=3000
+cycle_harness!(c01_loop_cycle_3args, 3); // tier=thorough cap=3000
+// @verif-end
 
 #[cfg(test)]
 mod playback {
